@@ -2,6 +2,7 @@
 import json
 import os
 import sys
+import time
 
 import lib
 import bufrlib as B
@@ -330,6 +331,7 @@ def run(ctx):
     for c, o in zip(live, lib.run_model_sharded(['okc08nz ' + c['toks'] for c in live])):
         c['okc08nz'] = (o == 'true')
     rejected = []
+    slow = []
     P.run_gen(cases)
     P.run_encode(cases)
     P.run_decode(cases)
@@ -351,8 +353,13 @@ def run(ctx):
         ctx.count((tuple(c['ids']), c['seed']), True)
         k_cache = rng.choice([0, 1, 2, 5])
         ctx.dist['cache-max-%d' % k_cache] += 1
+        t0 = time.time()
         with lib.time_limit(300):
             di = check_case(ctx, c, k_cache)
+        slow.append((round(time.time() - t0, 1), c['ids'], c['seed'], c['nsub'], bool(c['compressed']), k_cache))
+        slow.sort(reverse=True)
+        del slow[5:]
+        ctx.extra['slowest_cases_s_ids_seed_nsub_compressed_cache'] = slow
         fl = flags_of(c['ids'], c.get('version', 33))
         if di is not None and di[0] == 'ok' and not c.get('witness') and not (fl['marker_under_204'] or fl['marker_after_203000']
                                                                               or zero_count_bitmap(di)):
